@@ -6,6 +6,7 @@ import logging
 import threading
 from dataclasses import dataclass, field
 from functools import lru_cache
+import typing
 from typing import _GenericAlias
 
 import sqlalchemy.inspection
@@ -155,6 +156,32 @@ class ToDAOState:
         self.keep_alive[oid] = obj
 
 
+@lru_cache(maxsize=None)
+def _declared_collection_type(clazz: Type, field_name: str) -> Optional[Type]:
+    """
+    :return: set / frozenset / tuple if the class declares the field with that collection type, else None.
+    """
+    try:
+        declared_type = typing.get_type_hints(clazz).get(field_name)
+    except Exception:
+        return None
+    origin = typing.get_origin(declared_type) or declared_type
+    return origin if origin in (set, frozenset, tuple) else None
+
+
+def declared_collection(clazz: Type, field_name: str, values: List[Any]) -> Any:
+    """
+    A relationship collection is a list on the DAO whatever the class declares.
+
+    :param clazz: The class that declares the field.
+    :param field_name: The name of the field.
+    :param values: The restored elements.
+    :return: The elements in the collection type that the class declares for the field.
+    """
+    collection_type = _declared_collection_type(clazz, field_name)
+    return collection_type(values) if collection_type else values
+
+
 @dataclass
 class FromDAOState:
     """
@@ -237,16 +264,15 @@ class FromDAOState:
             objects converted using ``from_dao``, and the second element is a list of
             circular references that could not be fully resolved.
         """
-        if not value:
-            return value, []
+        # a list of its own: never the (instrumented) collection of the DAO, which the DAO keeps using
         instances = []
         circular_values: List[Any] = []
-        for v in value:
+        for v in value or []:
             instance = v.from_dao(state=self)
             if instance is self.memo.get(id(v)):
                 circular_values.append(v)
             instances.append(instance)
-        return type(value)(instances), circular_values
+        return instances, circular_values
 
     def apply_circular_fixes(self, result: Any, circular_refs: Dict[str, Any]) -> None:
         """
@@ -265,7 +291,7 @@ class FromDAOState:
                 fixed_list = []
                 for v in value:
                     fixed_list.append(self.memo.get(id(v)))
-                setattr(result, key, fixed_list)
+                setattr(result, key, declared_collection(type(result), key, fixed_list))
             else:
                 setattr(result, key, self.memo.get(id(value)))
 
@@ -764,7 +790,9 @@ class DataAccessObject(HasGeneric[T]):
                 parsed_list, circular_list = state.parse_collection(value)
                 if circular_list:
                     circular_refs[relationship.key] = circular_list
-                rel_kwargs[relationship.key] = parsed_list
+                rel_kwargs[relationship.key] = declared_collection(
+                    self.original_class(), relationship.key, parsed_list
+                )
             else:
                 raise UnsupportedRelationshipError(relationship)
         return rel_kwargs, circular_refs
